@@ -157,6 +157,15 @@ def scenarios():
     ex = {"apps.a1": _e(app_config={"x": 1}, imports={"apps.a1.helper"}), "apps.a1.helper": _e(), "file.main": _e()}
     fl = {"apps.a1": _f(rel_path="apps/a1/__init__.py", app_config={"x": 1}), "apps.a1.helper": _f(src="new", autoload=False, rel_path="apps/a1/helper.py"), "file.main": _f(rel_path="main.py")}
     S.append(("file inside an app package edited", ex, fl, None, ("apps.a1", "apps.a1.helper"), ("apps.a1",)))
+    # reload by name of an app package: the package's sibling contexts go with it
+    ex = {"apps.a1": _e(app_config={"x": 1}, imports={"apps.a1.helper"}), "apps.a1.helper": _e(), "apps.a10": _e(app_config={"x": 1}), "file.main": _e()}
+    fl = {"apps.a1": _f(rel_path="apps/a1/__init__.py", app_config={"x": 1}), "apps.a1.helper": _f(autoload=False, rel_path="apps/a1/helper.py"),
+          "apps.a10": _f(rel_path="apps/a10.py", app_config={"x": 1}), "file.main": _f(rel_path="main.py")}
+    S.append(("reload an app package by name (a sibling app shares the name prefix)", ex, fl, "apps.a1", ("apps.a1", "apps.a1.helper"), ("apps.a1",)))
+    # reload by name of a module: its importers are re-run
+    ex = {"file.main": _e(imports={"modules.m1"}), "modules.m1": _e(), "file.other": _e()}
+    fl = {"file.main": _f(rel_path="main.py"), "file.other": _f(rel_path="other.py"), "modules.m1": _f(autoload=False, rel_path="modules/m1.py")}
+    S.append(("reload a module by name: the importer is re-run", ex, fl, "modules.m1", ("file.main", "modules.m1"), ("file.main",)))
     # unloaded module file changes (nobody imports it): nothing happens
     ex = {"file.main": _e()}
     fl = {"file.main": _f(rel_path="main.py"), "modules.unused": _f(src="new", autoload=False, rel_path="modules/unused.py")}
@@ -168,7 +177,7 @@ def run(ctx):
     program = ctx.program
     f = program.func(LS)
     ctx.rule("R10.2", "contexts are stopped and deleted and shutdown triggers awaited before anything is loaded; the reload service starts the contexts afterwards", floor=10)
-    ctx.rule("R10.S", "load_scripts discards and (re)loads exactly the contexts the statement names, for every file-tree model of the catalogue", floor=14)
+    ctx.rule("R10.S", "load_scripts discards and (re)loads exactly the contexts the statement names, for every file-tree model of the catalogue", floor=16)
     for label, ex, fl, arg, exp_del, exp_load in scenarios():
         res = _model_run(program, ex, fl, arg)
         # a context that is re-loaded under its old name is discarded by load_file itself (stop + delete of the previous context)
@@ -239,6 +248,9 @@ def run(ctx):
         ctx.check(got == "ok", "R10.I", mi, f"reuse: {case}", msg=f"module_import: {case}: {got}: an unchanged module would be executed again (and its old context dropped) on reload",
                   key=f"reuse {case}", node=program.func(mi), rel="global_ctx.py")
 
+    ctx.rule("R10.F", "everything a reload (re)loads is also started: start_global_contexts, given the same argument, selects every context load_scripts loaded", floor=10)
+    started_table(ctx, program, "R10.F")
+
     ctx.rule("R10.D", "discovery: load paths cover top level, scripts/**, configured apps and modules; '#' files are skipped; apps need configuration", floor=4)
     lp = None
     for n in body_walk(f):
@@ -260,3 +272,49 @@ def run(ctx):
         "interpreted on 14 file-tree models; the GlobalContextMgr.delete / load_file events are compared with the discard and load sets the statement requires, and their order with the "
         "stop -> delete -> waiter_sync -> load discipline.  Discovery table and reload handler order structurally.  Not decided: arbitrary trees and edit sequences, module re-import during load."
     )
+
+
+def _started(program, names, arg, fresh=()):
+    """Interpret start_global_contexts over contexts ``names``; those in ``fresh`` were just (re)loaded (auto-start still off), the others are running."""
+    items = ListV([ListV([Const(n), ObjV("ctx:" + n, "GlobalContext")], "tuple") for n in names])
+    started = []
+
+    def start(i, n, a, k, c, o):
+        started.append(c.env.get("global_ctx").oid[4:])
+        return [(c, NONE)]
+
+    pol = FlowPolicy(program, may_raise_all=False, cancel=False, summaries={"GlobalContextMgr.items": lambda i, n, a, k, c, o: [(c, items)], "global_ctx.start": start,
+                                                                            "global_ctx.set_auto_start": lambda i, n, a, k, c, o: [(c, NONE)]})
+    pol.loop_unroll = 2
+    heap = {f"ctx:{n}.auto_start": Const(n not in fresh) for n in names}
+    out = run_flow(program, "__init__.py::start_global_contexts", pol, args={"global_ctx_only": Const(arg)}, heap=heap)
+    if len(exits(out)) != 1:
+        return None
+    return started
+
+
+def started_table(ctx, program, rid):
+    uid = "__init__.py::start_global_contexts"
+    # (a) selection: everything named by the argument (and every context not started yet) is started; nothing outside the four script roots ever is
+    names = ["file.a", "apps.garden", "apps.garden.sensors", "apps.gardenia", "scripts.x.y", "modules.m", "jupyter_1", "weird"]
+    known = ("file", "apps", "modules", "scripts")
+    for arg in (None, "*", "apps.garden", "file.a", "scripts.x"):
+        for fresh in ((), ("file.a", "jupyter_1")):
+            allowed = [n for n in names if n.split(".")[0] in known and "." in n]
+            must = [n for n in allowed if arg in (None, "*") or n == arg or n.startswith(arg + ".") or n in fresh]
+            got = _started(program, names, arg, fresh)
+            ok = got is not None and set(must) <= set(got) <= set(allowed) and len(set(got)) == len(got)
+            ctx.check(ok, rid, uid, f"selection for global_ctx={arg!r}, not yet started: {list(fresh)}",
+                      msg=f"start_global_contexts({arg!r}) over {names} (not yet started: {list(fresh)}) starts {got}; it must start {must} and nothing outside {allowed} "
+                      f"(unload_scripts/load_scripts select by the name itself and the contexts below it)", key=f"start selection {arg!r} {list(fresh)}", node=program.func(uid), rel="__init__.py")
+    # (b) composition with load_scripts on the file-tree models
+    for label, ex, fl, arg, exp_del, exp_load in scenarios():
+        res = _model_run(program, ex, fl, arg)
+        if len(res) != 1 or res[0][0] != "return":
+            continue
+        loaded = set(res[0][2])
+        after = sorted((set(ex) - set(res[0][1])) | loaded)
+        got = _started(program, after, arg, fresh=tuple(sorted(loaded)))
+        missing = sorted(loaded - set(got or []))
+        ctx.check(got is not None and not missing, rid, uid, f"model: {label}", msg=f"reload model '{label}' (global_ctx={arg!r}): load_scripts (re)loads {sorted(loaded)} but start_global_contexts starts only {got}: "
+                  f"{missing} {'is' if len(missing) == 1 else 'are'} loaded with auto-start off, its triggers never run until another reload", key=f"started {label}", node=program.func(uid), rel="__init__.py")
